@@ -123,6 +123,16 @@ func (h H) gate(rule, construct string, target ssa.Instruction, want core.Atom) 
 
 // gateAny: like gate but any of the alternative atoms may serve as the guard on a path.
 func (h H) gateAny(rule, construct string, target ssa.Instruction, wants ...core.Atom) bool {
+	return h.gateMode("strict", rule, construct, target, wants...)
+}
+
+// gateFresh: the guard is on every path and read fresh values when it was
+// evaluated; later writes by the function itself are not held against it.
+func (h H) gateFresh(rule, construct string, target ssa.Instruction, wants ...core.Atom) bool {
+	return h.gateMode("fresh", rule, construct, target, wants...)
+}
+
+func (h H) gateMode(mode, rule, construct string, target ssa.Instruction, wants ...core.Atom) bool {
 	fi := h.P.Info(target.Parent())
 	pass := func(a core.Atom) bool {
 		for _, w := range wants {
@@ -138,7 +148,13 @@ func (h H) gateAny(rule, construct string, target ssa.Instruction, wants ...core
 	}
 	var unstable []string
 	r := fi.MustCrossEdges(target, pass, func(e core.Edge) bool {
-		ok, why := fi.EdgeStable(e, target)
+		var ok bool
+		var why string
+		if mode == "fresh" {
+			ok, why = fi.EdgeFresh(e)
+		} else {
+			ok, why = fi.EdgeStable(e, target)
+		}
 		if !ok {
 			unstable = append(unstable, why)
 		}
